@@ -10,7 +10,6 @@ package c02
 import (
 	"fmt"
 	"runtime/debug"
-	"sort"
 	"strconv"
 	"strings"
 
@@ -313,13 +312,8 @@ func (r *run) all(mode int) {
 	whole := readString(src, c)
 	res.Outcome = whole.String()
 	var want []*cv // denotation, nil entries = unspecified
-	specified := true
 	for _, f := range t.forms {
-		d := f.den(c)
-		if d == nil {
-			specified = false
-		}
-		want = append(want, d)
+		want = append(want, f.den(c))
 	}
 	wholeOK := whole.err == nil
 	badForm := map[int]bool{} // forms whose whole-string read is already wrong (S3: not re-reported per delivery)
@@ -365,7 +359,6 @@ func (r *run) all(mode int) {
 		r.fail(fmt.Sprintf("api=ReadString check=denotation form=%s kind=error:%s", r.culprit(), whole.errClass()),
 			fmt.Sprintf("a complete text is refused: %s ; denotes %s", whole.String(), r.wantString(want)))
 	}
-	_ = specified
 
 	// bytes
 	rb := readBytes(src, c)
@@ -803,13 +796,4 @@ func delta(d int) string {
 		return "short"
 	}
 	return "long"
-}
-
-func sortedKeys(m map[string]int) []string {
-	var ks []string
-	for k := range m {
-		ks = append(ks, k)
-	}
-	sort.Strings(ks)
-	return ks
 }
